@@ -2002,6 +2002,10 @@ class TypeEnv:
         fsym = prog.resolve_expr_symbol(self.mod, f) if isinstance(f, (ast.Name, ast.Attribute)) else None
         if isinstance(fsym, tuple) and fsym[0] == 'ext' and fsym[1] in EXT_OBJECT_FACTORIES:
             return ('extobj', fsym[1])
+        if isinstance(f, ast.Attribute) and f.attr == '_replace':
+            rt = strip_opt(self.type_of(f.value))
+            if rt[0] == 'cls' and rt[1] in prog.classes and any(str(b).split('.')[-1] == 'NamedTuple' for b in prog.classes[rt[1]].bases):
+                return rt       # a copy of the same record type
         ft = self.type_of(f)
         if ft[0] == 'type':
             return t_cls(ft[1])
@@ -2353,6 +2357,12 @@ class TypeEnv:
                             out.append(m)
                 if out:
                     return out
+            if bt[0] == 'cls' and bt[1] in prog.classes and f.attr in ('_replace', '_asdict', '_make') and \
+                    any(str(b).split('.')[-1] == 'NamedTuple' for b in prog.classes[bt[1]].bases):
+                # generated by typing.NamedTuple; `_replace(field=...)` with the names of fields cannot fail
+                flds = set(prog.class_fields(prog.classes[bt[1]]))
+                if f.attr != '_replace' or (not e.args and all(k.arg in flds for k in e.keywords)):
+                    return [('builtin', f'namedtuple.{f.attr}')]
             if bt[0] == 'cls' and bt[1] in prog.classes:
                 # known class without such method -> attribute holding a callable; unknown
                 return [('unknown', f.attr)]
